@@ -2,9 +2,9 @@
 import numpy as np
 import torch
 import xitorch
-from xitorch.optimize import rootfinder
+from xitorch.optimize import rootfinder, equilibrium
 from xitorch.integrate import solve_ivp, quad, mcquad
-from xitorch.grad import jac
+from xitorch.grad import jac, hess
 from xitorch._core.pure_function import make_sibling, get_pure_function
 
 from harness.base import grads, zero_if_none
@@ -182,6 +182,30 @@ def _run(functional, fcn, params, cx, aux):
         return solve_ivp(rhs, aux["ts"], aux["y0"], params=params, method="euler")
     if functional == "quad":
         return quad(fcn, aux["xl"], aux["xu"], params=params, n=2)
+    if functional == "equilibrium":
+        # y = g(y)+y has the roots of g as fixed points; the forward is a caller-supplied method returning ys
+        ys = aux["ys"]
+        method = lambda f, y0, p, **kw: ys.detach().clone()
+
+        @make_sibling(fcn)
+        def fixed(y, *p):
+            return fcn(y, *p) + y
+        return equilibrium(fixed, aux["y0"], params=params, method=method)
+    if functional == "quad_tuple":
+        @make_sibling(fcn)
+        def two(x, *p):
+            v = fcn(x.reshape(1), *p)
+            return (v, v * x)
+        r = quad(two, aux["xl"], aux["xu"], params=params, n=2)
+        return r[0] + 2 * r[1]
+    if functional == "hess":
+        yy = aux["y0"].detach().clone().requires_grad_()
+
+        @make_sibling(fcn)
+        def scal(y, *p):
+            return (fcn(y, *p) * y * y).sum()
+        op = hess(scal, (yy, *params), idxs=0)
+        return op.mv(aux["v"])
     if functional == "jac":
         yy = aux["y0"].detach().clone().requires_grad_()
         op = jac(fcn, (yy, *params), idxs=0)
@@ -198,7 +222,7 @@ def same(cx, functional="rootfinder", kind="nn", pattern="all", second=True):
     a = cx.sym("a", (1,), requires_grad=req[0])
     b = cx.sym("b", (1,), requires_grad=req[1])
     ys = cx.sym("ys", (1,))
-    if functional == "rootfinder":
+    if functional in ("rootfinder", "equilibrium"):
         # c chosen so that ys is a root (value a leaf)
         c = (a.detach() * ys * ys + b.detach() * ys).clone().requires_grad_(req[2])
         cx.assume(2 * a.detach() * ys + b.detach() != 0)
@@ -286,6 +310,10 @@ def configs(tier):
 
     kinds = ["nn", "nn_nested", "editable", "editable_nn", "sibling", "multi_sibling", "multi_sibling3", "mixed"]
     functionals = ["rootfinder", "solve_ivp", "quad", "jac"]
+    # functionals that wrap the user's function in a sibling of their own
+    for fn in ("equilibrium", "quad_tuple", "hess"):
+        for kind in ("editable", "nn", "editable_nn"):
+            add("%s/%s/all" % (fn, kind), same, functional=fn, kind=kind, pattern="all", second=fn != "hess")
     for fn in functionals:
         for kind in kinds:
             add("%s/%s/all" % (fn, kind), same, functional=fn, kind=kind, pattern="all", second=True)
